@@ -127,6 +127,35 @@ struct Case {
                 }
                 ok = compare_all("non-interference");
             }
+            if constexpr (L != L_STRIDED) {
+                // the same on a field whose storage the LIBRARY sized: converted from a row-major field
+                if (ok) {
+                    vh::set_case("%s extents=%s small-scope (storage allocated by the conversion)", nm.c_str(), sc::show<N>(e).c_str());
+                    using src_t = covfie::field<cb::strided<idx_d, cb::array<out_d>>>;
+                    src_t src(covfie::make_parameter_pack(typename src_t::backend_t::configuration_t(e), covfie::utility::nd_size<1>{ncell}));
+                    field_t conv(src);
+                    typename field_t::view_t cv_(conv);
+                    uint64_t d[N] = {};
+                    uint64_t id2 = 7;
+                    do {
+                        typename field_t::coordinate_t cc;
+                        for (std::size_t k = 0; k < N; ++k) cc[k] = (I)d[k];
+                        for (std::size_t j = 0; j < M; ++j) cv_.at(cc)[j] = (S)(id2 + sc::model_pos<N>(d, e) * M + j);
+                    } while (sc::next_coord<N>(d, e));
+                    for (std::size_t k = 0; k < N; ++k) d[k] = 0;
+                    do {
+                        typename field_t::coordinate_t cc;
+                        for (std::size_t k = 0; k < N; ++k) cc[k] = (I)d[k];
+                        for (std::size_t j = 0; j < M; ++j) {
+                            vh::ev();
+                            if (cv_.at(cc)[j] != (S)(id2 + sc::model_pos<N>(d, e) * M + j)) {
+                                vh::viol(nm + ":converted-field-readback", "extents=" + sc::show<N>(e) + " c=" + vh::jarr(d, N) + " component " + std::to_string(j));
+                                ok = false;
+                            }
+                        }
+                    } while (ok && sc::next_coord<N>(d, e));
+                }
+            }
             if (!sc::trivial_ext<N>(e)) {
                 vh::nontrivial(vh::fnv(&e, sizeof e, vh::fnv(nm)));
                 if (ncell > 6) vh::sample(nm, "extents=" + sc::show<N>(e) + " cells=" + std::to_string(ncell) + " storage=" + std::to_string(storage_len(e)) + (ok ? " ok" : " VIOLATED"), 1);
